@@ -3,10 +3,21 @@ import SpecterModel.C40.Model
 /-!
 C40 line-protocol driver.
 
-  copier <reads> <writes> => calls=<hex/…>;err=<e>;closes=<order>
-      one real `pipe(...)` goroutine body over scripted streams. reads = `/`-separated `<hex>.<err>`,
-      writes = `/`-separated `<n>.<err>`; err ∈ n | eof | short | invalid | e<k>; `-` = empty script.
-      closes: W = the stream written to, R = the stream read from (sorted: the order is not part of the property).
+  copier <reads> <writes> => calls=<hex/…>;err=<e>;closes=<tags>;total=<tags>;chan=closed|open
+      one copier of the real `Pipe(R, W)` over scripted streams: R answers `Read` from the script, W answers `Write`
+      from the script; the opposite copier is parked in `W.Read` until both streams have been closed once and then
+      sees end-of-stream. reads = `/`-separated `<hex>.<err>`, writes = `/`-separated `<n>.<err>`;
+      err ∈ n | eof | short | invalid | e<k>; `-` = empty script.
+      closes: the Close calls made before the parked copier was released, W = the stream written to, R = the stream
+      read from (sorted: the order is not part of the property); total: all Close calls when the channel is closed.
+  duplex <ev/ev/…> => AB=<hex>;BA=<hex>;errs=<sorted,…>;cA=<n>;cB=<n>;chan=closed|open;cap=<n>;stuck=<0|1>
+      real `Pipe(X, Y)` with traffic in both directions at once, driven event by event; destinations consume each
+      `Write` piece by piece and look at the bytes of a piece at the moment they take it.
+      ev: rA.<hex> = X.Read returns the chunk   dA.<k> = the consumer behind Y takes the next k bytes of the Write in flight
+          rB.<hex> / dB.<k> = the same for the direction Y → X
+          last event: eA | eB = that side's Read reports end-of-stream, xA.<k> | xB.<k> = it fails with error e<k>;
+          the other side's pending Read / Write then fails with `closed` when its stream is closed.
+      AB = bytes consumed behind Y, BA = bytes consumed behind X.
   pipe2 <A.reads> <A.writes> <B.reads> <B.writes> => AB=<calls>;BA=<calls>;errs=<sorted,…>;cA=<n>;cB=<n>;chan=closed|open;cap=<cap of the channel>
       real `Pipe(A, B)` over two scripted streams.
   live <who closes> <hexA> <hexB> <tail hex> => AB=<hex>;BA=<hex>;tail=<hex>;end=<eof|closed|…>;cX=<n>;cY=<n>;nerr=<k>;chan=closed|open
@@ -65,6 +76,57 @@ def insertSorted (x : String) : List String → List String
 
 def sortStrs (l : List String) : List String := l.foldr insertSorted []
 
+
+/-! ### duplex: both directions at once -/
+
+inductive DEnd where
+  | eof (d : Dir) | fail (d : Dir) (k : Nat)
+
+def DEnd.dir : DEnd → Dir
+  | .eof d | .fail d _ => d
+
+def parseDir (s : String) : Option Dir :=
+  if s = "A" then some .ab else if s = "B" then some .ba else none
+
+def parseDEv (s : String) : Option (DEv ⊕ DEnd) :=
+  match s.splitOn "." with
+  | [t] => if t = "eA" then some (.inr (.eof .ab)) else if t = "eB" then some (.inr (.eof .ba)) else none
+  | [t, a] =>
+    match (t.drop 1).toString |> parseDir with
+    | none => none
+    | some d =>
+      if t.startsWith "r" then (hexToBytes a).map fun c => .inl (.read d c)
+      else if t.startsWith "d" then a.toNat?.map fun k => .inl (.drain d k)
+      else if t.startsWith "x" then a.toNat?.map fun k => .inr (.fail d k)
+      else none
+  | _ => none
+
+/-- events up to the terminating one -/
+def splitSchedule : List (DEv ⊕ DEnd) → Option (List DEv × DEnd)
+  | [] => none
+  | [.inr e] => some ([], e)
+  | .inl ev :: rest => (splitSchedule rest).map fun (evs, e) => (ev :: evs, e)
+  | .inr _ :: _ => none
+
+/-- spec view: bytes written on a side (what its Read calls returned), number of bytes the far consumer took -/
+def sentOf (d : Dir) (evs : List DEv) : List Nat :=
+  (evs.filterMap fun | .read d' c => if d' = d then some c else none | _ => none).flatten
+def takenByConsumer (d : Dir) (evs : List DEv) : Nat :=
+  (evs.filterMap fun | .drain d' k => if d' = d then some k else none | _ => none).foldl (· + ·) 0
+
+def zeroMem : Nat → List Nat := fun _ => List.replicate bufferSize 0
+
+/-- run the model, refusing schedules the unchanged code cannot follow -/
+def runSchedule : DState → List DEv → Option DState
+  | s, [] => some s
+  | s, ev :: evs => if enabled s ev then runSchedule (dstep codeBufOf s ev) evs else none
+
+def dirName : Dir → String
+  | .ab => "X" | .ba => "Y"
+
+def other : Dir → Dir
+  | .ab => .ba | .ba => .ab
+
 def step (_ : Unit) (toks : List String) (rhs : String) : Unit × Verdict :=
   match toks with
   | ["reset"] => ((), .ok)
@@ -72,12 +134,13 @@ def step (_ : Unit) (toks : List String) (rhs : String) : Unit × Verdict :=
     match parseList parseRead rs, parseList parseWrite ws with
     | some rs, some ws =>
       let out := copy rs ws
-      let model := s!"calls={callsStr out.calls};err={errStr out.err};closes=RW"
+      let model := s!"calls={callsStr out.calls};err={errStr out.err};closes=RW;total=RRWW;chan=closed"
       -- property: with a destination that accepts everything, all source bytes up to its end arrive, in order;
       -- both streams are closed; the reported error is the source's
       let closes := field rhs "closes"
       let specMsg : Option String :=
-        if closes.length ≠ 2 ∨ !(closes.contains 'W') ∨ !(closes.contains 'R') then some "each stream must be closed exactly once by the copier"
+        if field rhs "chan" ≠ "closed" then some "Pipe must report completion by closing the channel"
+        else if closes.length ≠ 2 ∨ !(closes.contains 'W') ∨ !(closes.contains 'R') then some "each stream must be closed exactly once by the copier"
         else if ws.isEmpty then
           let src := specSource rs
           match flattenHexCalls (field rhs "calls") with
@@ -105,6 +168,33 @@ def step (_ : Unit) (toks : List String) (rhs : String) : Unit × Verdict :=
         ((), .spec "error channel smaller than the number of errors: a copier blocks forever when nobody receives")
       else if model = rhs then ((), .ok) else ((), .diff model)
     | _, _, _, _ => ((), .bad "pipe2 args")
+  | ["duplex", sched] =>
+    match ((sched.splitOn "/").mapM parseDEv).bind splitSchedule with
+    | none => ((), .bad "duplex schedule")
+    | some (evs, fin) =>
+      match runSchedule { mem := zeroMem } evs with
+      | none => ((), .bad "duplex schedule cannot be followed by two copiers")
+      | some st =>
+        if (st.half fin.dir).off ≠ (st.half fin.dir).nr then ((), .bad "duplex schedule ends a side while its copier is writing")
+        else
+        -- property, from the schedule alone: the n bytes the consumer behind one stream has taken are the first n
+        -- bytes written on the other side (all of them for the side that ended), in order; both streams closed by
+        -- both copiers; completion reported
+        let judge (d : Dir) (key : String) : Option String :=
+          let want := (sentOf d evs).take (takenByConsumer d evs)
+          if field rhs key = bytesToHex want then none
+          else some s!"the consumer on side {dirName (other d)} took {takenByConsumer d evs} byte(s): they must be the first bytes written on side {dirName d}, unmodified and in order: want {bytesToHex want} got {field rhs key}"
+        let ferr := match fin with | .eof _ => [] | .fail _ k => [s!"e{k}"]
+        let errs := sortStrs ("closed" :: ferr)
+        let model := s!"AB={bytesToHex (st.half .ab).delivered};BA={bytesToHex (st.half .ba).delivered};errs={",".intercalate errs};cA=2;cB=2;chan=closed;cap=2;stuck=0"
+        if field rhs "chan" ≠ "closed" then ((), .spec "Pipe must report completion by closing the channel")
+        else if field rhs "stuck" ≠ "0" then ((), .spec "a copier stopped moving data although its source had data / its consumer was taking data")
+        else match judge .ab "AB", judge .ba "BA" with
+          | some m, _ => ((), .spec m)
+          | _, some m => ((), .spec m)
+          | none, none =>
+            if field rhs "cA" ≠ "2" ∨ field rhs "cB" ≠ "2" then ((), .spec "both streams must be closed by both copiers")
+            else if model = rhs then ((), .ok) else ((), .diff model)
   | ["live", _who, a, b, tail] =>
     if field rhs "chan" ≠ "closed" then ((), .spec "Pipe must report completion by closing the channel")
     else if field rhs "AB" ≠ a ∨ field rhs "BA" ≠ b then ((), .spec "bytes written on one side must arrive on the other side in order")
